@@ -186,6 +186,93 @@ def _api_chunk(calls):
     return n, bad
 
 
+# every literal and escape form the lexers know, as small programs the engine accepts, so that every PREFIX ends inside
+# each form once (a parser that stops at the first error never lexes what follows it, hence many short texts)
+ZOO = [
+    r"""var s = 'a\x41B\u{1F600}\n\t\v\0\'\\' + "q\x7e\u00e9\"" + 'line\
+cont'; s""",
+    r"""var n = [0x1F, 0b101, 0o17, 1e+5, .5, 1.5e-3, 0.1E2, 9007199254740993, 0XaB, 1e-7, 017]; n""",
+    r"""var r = /a[/\]]\/(?:x|A|\x41|\cA)+(?=b)(?<=c)(d)\1{2,3}?/gimsuy; /* block */ // line
+r.source""",
+    r"""var o = {a: 1, 'b': 2, 3: 4, get g() { return 1 }, set g(v) { }, f: function () { }}; o.g""",
+    r"""lbl: for (var i = 0; i < 2; i++) { continue lbl } out: { break out } i""",
+    r"""var f = (a, b) => a + b, g = x => ({v: x}); f(1, 2) + g(3).v""",
+    r"""try { throw new Error('e') } catch (e) { } finally { } switch (1) { case 1: break; default: }""",
+    r"""'a1b22'.replace(/\d+/g, function (m) { return m + 1 }); typeof void 0; var a = 1 ? 2 : 3; a *= 2; a >>>= 1; a""",
+    r"""var t = [1, [2, [3, {k: [4]}]]], u = t[1][1][1].k[0]; do { u-- } while (u > 0); for (var k in {a: 1}) { } for (var v of [1]) { } u""",
+    r"""var x = {}; x.y = {z: function () { return this }}; new x.y.z() instanceof x.y.z; delete x.y; 'y' in x""",
+    r"""var m = {'key with space': 1, "dq": 2}; m['key with space'] + m["dq"]""",
+    r"""function outer(a, b) { var c = arguments.length; return function inner() { return a + b + c } } outer(1, 2)()""",
+    r"""if (1) { } else if (2) { } else { } while (false) { } for (;;) { break } ;;; -1 + +1 - -1 + !0 + ~0""",
+    r"""var big = 1.7976931348623157e308, tiny = 5e-324, neg = -0, h = 0xFFFFFFFF, e = 1E21; [big, tiny, neg, h, e]""",
+    r"""var re2 = /[\]\\/]+$/.test('a]') && /\//.test('/') && /[^\n]/.test('x') && /\u{61}/u.test('a'); re2""",
+]
+
+
+def _prefix_chunk(args):
+    texts = args
+    from microjs import Context
+    from microjs.errors import JSError
+    bad = []
+    for src in texts:
+        try:
+            Context(time_limit=2.0, memory_limit=5_000_000).eval(src)
+        except JSError:
+            pass
+        except BaseException as e:  # noqa
+            bad.append((src, "host exception " + type(e).__name__ + ": " + str(e)[:80]))
+    return len(texts), bad
+
+
+RX_PATTERNS = ["$", "^", "\\\\b", "\\\\B", "(?=a)", "(?!a)", "(?<=a)", "(?<!a)", "a", ".", "[^x]", "(a)\\\\1", "a*", "(?:)", "\\\\s", "a|$"]
+RX_FLAGS = ["", "g", "y", "gy", "m", "my", "gm", "gmy", "s", "i", "u", "giy"]
+RX_LAST = ["-1", "0", "1", "2", "3", "7", "2147483648", "4294967296", "9007199254740992", "1e21", "NaN", "Infinity", "-Infinity", "'3'", "null", "undefined", "({})", "2.5", "-0"]
+RX_USES = ["r.test(S)", "r.exec(S)", "S.match(r)", "S.replace(r, 'x')", "S.split(r)", "S.search(r)", "S.replace(r, function () { return 'y' })", "S.replaceAll(new RegExp(r.source, r.flags.indexOf('g') < 0 ? r.flags + 'g' : r.flags), 'z')"]
+
+
+def _regex_state_chunk(args):
+    """a RegExp object in every state a script can put it in (lastIndex: any value) through every consumer"""
+    cases = args
+    from microjs import Context
+    from microjs.errors import JSError
+    bad = []
+    ctx = None
+    for i, (p, f, l, u, subj) in enumerate(cases):
+        if i % 100 == 0:
+            ctx = Context(time_limit=5.0)
+        src = f'var S = {subj}; var r = new RegExp("{p}", "{f}"); r.lastIndex = {l}; var res = {u}; [typeof res, r.lastIndex]'
+        try:
+            ctx.eval(src)
+        except JSError:
+            pass
+        except BaseException as e:  # noqa
+            bad.append((src, "host exception " + type(e).__name__ + ": " + str(e)[:80]))
+            ctx = Context(time_limit=5.0)
+    return len(cases), bad
+
+
+@groups.group(id="C04.bounded.states", prop="C04", kind="B", functions=["microjs.lexer:Lexer", "microjs.regex.regex:RegExp.exec", "microjs.vm:VM"])
+def c04_states(tier="quick", seed=0):
+    import multiprocessing as mp
+    prefixes = [z[:i] for z in ZOO for i in range(len(z) + 1)]
+    prefixes += [z[:i] + tail for z in ZOO for i in range(0, len(z), 5) for tail in ("'", '"', "/", "*/", "}", ")", "\\", "\n")]
+    whole = [z for z in ZOO]
+    cases = [(p, f, l, u, subj) for p in RX_PATTERNS for f in RX_FLAGS for l in RX_LAST for u in RX_USES for subj in ("'ab'", "''", "'a\\nb a'")]
+    if tier == "quick":
+        cases = cases[seed % 3::3]
+    with mp.get_context("fork").Pool(16) as pool:
+        rp = pool.map(_prefix_chunk, [prefixes[i::16] for i in range(16)])
+        rr = pool.map(_regex_state_chunk, [cases[i::16] for i in range(16)])
+    out = []
+    for name, rs, what in (("prefixes", rp, "prefixes (and prefixes closed by one token) of a text that contains every literal and escape form"),
+                           ("regex-state", rr, "RegExp pattern x flags x lastIndex value x consumer x subject")):
+        bad = [b for _, bs in rs for b in bs]
+        tot = sum(c for c, _ in rs)
+        out.append(ob(f"C04.bounded.states.{name}", not bad, "B", f"{tot} {what}" if not bad else f"{bad[0][1]} on {bad[0][0][-120:]!r}",
+                      witness=(bad[0][0] if bad else None), confirmed=True if bad else None, domain=tot))
+    return out
+
+
 @groups.group(id="C04.bounded", prop="C04", kind="B", functions=["microjs.context:Context.eval"])
 def c04_bounded(tier="quick", seed=0):
     import multiprocessing as mp
